@@ -50,9 +50,34 @@ func NewWriter_PubkeyToOffsetAndSize(
 	if rootCid == cid.Undef {
 		return nil, ErrInvalidRootCid
 	}
-	index, err := compactindexsized.NewBuilderSized(
+	return NewWriter_PubkeyToOffsetAndSize_Sized(
+		epoch,
+		rootCid,
+		network,
 		tmpDir,
 		uint(1000000), // TODO: can this be not precise?
+	)
+}
+
+// NewWriter_PubkeyToOffsetAndSize_Sized is NewWriter_PubkeyToOffsetAndSize for a known number of pubkeys.
+// The index is laid out in buckets of about 10 000 entries each; a bucket that ends up about twice
+// as full can no longer be hashed without collision, and sealing fails.
+func NewWriter_PubkeyToOffsetAndSize_Sized(
+	epoch uint64,
+	rootCid cid.Cid,
+	network Network,
+	tmpDir string, // Where to put the temporary index files; WILL BE DELETED.
+	numItems uint,
+) (*PubkeyToOffsetAndSize_Writer, error) {
+	if !IsValidNetwork(network) {
+		return nil, ErrInvalidNetwork
+	}
+	if rootCid == cid.Undef {
+		return nil, ErrInvalidRootCid
+	}
+	index, err := compactindexsized.NewBuilderSized(
+		tmpDir,
+		numItems,
 		IndexValueSize_PubkeyToOffsetAndSize,
 	)
 	if err != nil {
@@ -115,6 +140,11 @@ func (w *PubkeyToOffsetAndSize_Writer) SealWithFilename(ctx context.Context, dst
 	w.sealed = true
 
 	return nil
+}
+
+// Discard releases a writer that will not be sealed (its temporary directory is deleted).
+func (w *PubkeyToOffsetAndSize_Writer) Discard() error {
+	return w.index.Close()
 }
 
 func (w *PubkeyToOffsetAndSize_Writer) Close() error {
